@@ -25,6 +25,7 @@ import io
 import itertools
 import math
 import struct
+import time
 import warnings
 
 import numpy as np
@@ -32,8 +33,22 @@ import pyttb as ttb
 import scipy.sparse.linalg
 
 from harness import gen
-from harness.lib import Family, Verdict, call, drive
+from harness.lib import DriverError, Family, Verdict, call
+from harness.lib import drive as _drive
 from harness.translate import gen_cpals
+
+def drive(reqs):
+    """lib.drive, patient with a driver binary that another check is relinking right now."""
+    for attempt in range(40):
+        try:
+            return _drive(reqs)
+        except DriverError as e:
+            if "driver not built" not in str(e) and "exit -" not in str(e) and "Text file busy" not in str(e):
+                raise
+            if attempt == 39:
+                raise
+            time.sleep(1.5)
+
 
 RULE = ("cases come from random.Random(VERIF_SEED): integer-valued data tensors of order 2..3 (4 in thorough) with "
         "extents 1..5 (distinct where possible) given as dense, sparse (stored order sorted/reversed/shuffled), "
@@ -41,7 +56,10 @@ RULE = ("cases come from random.Random(VERIF_SEED): integer-valued data tensors 
         "starts: given integer Kruskal guesses (weights != 1 too), 'random' under seeds 0..9999, 'nvecs'; every "
         "mode order and every non-empty subset of optimised modes for order <= 3 (enumerated completely for one "
         "tensor per data kind), iteration limits 1..6, stoptol in {0, 1e-9, 1e-4, 1e-2, 0.1}, fixsigns on/off, "
-        "printitn in {0,1,2,5}; plus degenerate inputs (zero tensor, zero factor in the guess) and a malformed "
+        "printitn in {0,1,2,5}; the family `scale` (run first) repeats every representation with all values multiplied "
+        "by 1e-12 .. 1e+12 (8 decades quick, 16 thorough; printitn 0 and 1) and the exactly-zero tensor as dense, "
+        "sparse, Tucker and sum data, every comparison relative to the size of the quantities involved; plus "
+        "degenerate inputs (zero tensor, zero factor in the guess) and a malformed "
         "stream (bad dimorder / optdims / rank / start / limit 0). Normal form is checked as: every column has 2-norm 1 "
         "to 1e-8, or is entirely zero with weight exactly 0 (a component that collapsed to zero, tag zero-component "
         "- the `unit or zero` alternative of C09_normal_form). A case is non-trivial when cp_als accepts it, no "
@@ -165,6 +183,38 @@ def obj_of(d):
     raise ValueError(k)
 
 
+def scale_data(d, sc):
+    """The data description with every value multiplied by the float `sc` (one factor per part)."""
+    if sc == 1:
+        return d
+    k = d["kind"]
+    if k == "dense":
+        return {**d, "data": [float(v) * sc for v in d["data"]]}
+    if k == "sparse":
+        return {**d, "vals": [float(v) * sc for v in d["vals"]]}
+    if k == "tucker":
+        return {**d, "core": {**d["core"], "data": [float(v) * sc for v in d["core"]["data"]]}}
+    if k == "ktensor":
+        return {**d, "weights": [float(v) * sc for v in d["weights"]]}
+    if k == "sum":
+        return {**d, "parts": [scale_data(q, sc) for q in d["parts"]]}
+    raise ValueError(k)
+
+
+def case_scale(case):
+    return float(case.get("scale", 1.0))
+
+
+def case_obj(case):
+    """The pyttb data object of a case (integer description times the case's scale)."""
+    return obj_of(scale_data(case["data"], case_scale(case)))
+
+
+def case_dense(case):
+    """The same array with plain numpy, scaled after assembling the integer array."""
+    return case_scale(case) * dense_of(case["data"])
+
+
 def snapshot(o):
     """Bytes of every array an object owns (for the bitwise 'not modified' check)."""
     if isinstance(o, ttb.tensor):
@@ -281,7 +331,7 @@ def init_arg(case):
 
 
 def run_once(case, maxiters, printitn):
-    X = obj_of(case["data"])
+    X = case_obj(case)
     before = snapshot(X)
     rec = Rec(X)
     out = {"rec": rec}
@@ -453,9 +503,13 @@ class Trace(Family):
         last = dims[-1]
         if setup["ok"]["dims"] != dims:
             return fail("corr", "reduced dimorder differs", tags, dims, setup)
-        X = dense_of(d)
+        X = case_dense(case)
         normX_true = float(np.sqrt((X ** 2).sum()))
         is_sum = d["kind"] == "sum"
+        if case_scale(case) != 1.0:
+            tags.append("scale1e%+d" % round(math.log10(case_scale(case))))
+        if normX_true == 0:
+            tags.append("zero-data")
         passes = p["passes"]
         longest = runs_0[-1]
         normX = longest["normX"]
@@ -482,7 +536,10 @@ class Trace(Family):
             for (_n, _Us, _mout, sev) in steps:
                 if sev is not None:
                     with np.errstate(all="ignore"):
-                        if not np.linalg.cond(sev[1]) < 1e10:
+                        try:
+                            if not (np.isfinite(sev[1]).all() and np.linalg.cond(sev[1]) < 1e10):
+                                illcond = True
+                        except np.linalg.LinAlgError:
                             illcond = True
         if illcond:
             tags.append("ill-conditioned")
@@ -492,12 +549,16 @@ class Trace(Family):
         v = self.property_checks(case, runs_p, runs_0, X, normX_true, dims, illcond, tags)
         if v is not None:
             return v
+        if "non-finite" in tags:
+            # inf/nan from a numerically singular solve: 0*nan differs between a sparse and a dense
+            # evaluation of the same MTTKRP, so there is no state sequence to validate
+            return Verdict("ok", "", None, None, None, tags, False)
 
         # ---- services: mttkrp results and solve contracts --------------------
         for t, steps in enumerate(passes):
             for (n, Us, mout, sev) in steps:
                 ref = mttkrp_np(X, Us, n)
-                if not approx(mout, ref, 1e-9, 1e-9 * max(1.0, float(np.abs(ref).max(initial=0)))):
+                if not approx(mout, ref, 1e-9, 1e-9 * float(np.abs(ref).max(initial=0)) + 1e-300):
                     return fail("violation", f"data.mttkrp(U, {n}) differs from X_(n)·khatrirao at pass {t}", tags,
                                 mout.tolist(), ref.tolist())
                 if sev is not None:
@@ -602,9 +663,11 @@ class Trace(Family):
             if ambiguous:
                 if "tie" not in tags:
                     tags.append("tie")
-                same = approx(kr_dense(w_m, F_m), kr_dense(M.weights, M.factor_matrices), 1e-8, 1e-9 * max(1.0, normX_true))
+                Md_i = kr_dense(M.weights, M.factor_matrices)
+                same = approx(kr_dense(w_m, F_m), Md_i, 1e-8, 1e-9 * float(np.abs(Md_i).max(initial=0)) + 1e-300)
             else:
-                same = approx(w_m, M.weights) and all(approx(a, b) for a, b in zip(F_m, M.factor_matrices))
+                same = approx(w_m, M.weights, REL, ABS * float(np.abs(M.weights).max(initial=0))) and \
+                    all(approx(a, b) for a, b in zip(F_m, M.factor_matrices))
             if not same:
                 return fail("corr", f"returned model differs from arrange/fixsigns of the model (maxiters={j})", tags,
                             {"weights": M.weights.tolist()}, {"weights": w_m.tolist()})
@@ -627,7 +690,7 @@ class Trace(Family):
         else:
             tags.append("limit-reached")
         return Verdict("ok", "", {"fits": fits0, "iters": iters0}, None, None, tags,
-                       nontrivial and "zero-component" not in tags)
+                       nontrivial and "zero-component" not in tags and "non-finite" not in tags)
 
     def property_checks(self, case, runs_p, runs_0, X, normX_true, dims, illcond, tags):
         d = case["data"]
@@ -658,7 +721,9 @@ class Trace(Family):
                     return fail("violation", f"returned model has the wrong shape or rank {where}", tags,
                                 [list(F.shape) for F in Fs], [list(shape), R])
                 if not np.isfinite(W).all() or not all(np.isfinite(F).all() for F in Fs):
-                    if degenerate or "rank-deficient-data" in tags:
+                    # a coefficient matrix that is singular up to rounding (np.linalg.solve refuses it
+                    # when it is exactly singular) makes the solver answer inf/nan
+                    if degenerate or illcond or "rank-deficient-data" in tags:
                         tags.append("non-finite")
                         return None
                     return fail("violation", f"returned model has non-finite entries {where}", tags)
@@ -693,7 +758,7 @@ class Trace(Family):
                     obj = want
                 elif normX_true == 0:
                     want = normM2 - 2 * ip
-                    if abs(nr_r - want) > 1e-10 * max(scale2, 1) or abs(fit_r - want) > 1e-10 * max(scale2, 1):
+                    if abs(nr_r - want) > 1e-10 * scale2 + 1e-300 or abs(fit_r - want) > 1e-10 * scale2 + 1e-300:
                         return fail("violation", f"zero data: reported value is not |M|^2 - 2<X,M> {where}", tags)
                     obj = want
                 else:
@@ -896,6 +961,54 @@ def degenerate_cases(rng):
     ]
 
 
+class Scale(Trace):
+    """The same data at very small and very large magnitudes (entries 1e-12 .. 1e+12, so that
+    ||X|| ranges from ~1e-11 to ~1e+13), every representation, printing off and on, and the
+    exactly-zero tensor as its own case.  Every comparison with the independent recomputation
+    is relative to the size of the quantities involved; nothing here is an absolute threshold,
+    so a change that treats a small (or large) non-zero norm specially is a failing input.
+    This family runs first, also in the widened search after a proof-side breakage."""
+    name = "scale"
+
+    QUICK = (-12, -10, -9, -8, -6, 6, 9, 12)
+    THOROUGH = (-12, -11, -10, -9, -8, -7, -6, -5, -4, -2, 2, 4, 6, 8, 10, 12)
+
+    def gen(self, rng, tier):
+        out = []
+        exps = self.QUICK if tier == "quick" else self.THOROUGH
+        reps = 1 if tier == "quick" else 2
+        for kind in ["dense", "sparse", "tucker", "sum"]:
+            for _ in range(reps):
+                for e in exps:
+                    N = rng.choice([2, 3])
+                    R = rng.choice([1, 2])
+                    shape = gen_shape(rng, N, max(R, 2))
+                    data = gen_data(rng, kind, shape, R)
+                    iks = ["given", "random"] + ([] if kind == "sum" else ["nvecs"])
+                    ik = rng.choice(iks)
+                    init = gen_given(rng, shape, R) if ik == "given" else (
+                        {"kind": "random", "seed": rng.randrange(10000)} if ik == "random" else {"kind": "nvecs"})
+                    base = {"data": data, "scale": float("1e%d" % e), "rank": R, "init": init,
+                            "dimorder": None if rng.random() < 0.6 else gen.perm(rng, N), "optdims": None,
+                            "stoptol": rng.choice([1e-4, 1e-4, 1e-9, 1e-2]), "k": rng.choice([2, 3]),
+                            "fixsigns": rng.random() < 0.5}
+                    for pr in (0, 1):
+                        out.append({**base, "printitn": pr})
+        # the exactly-zero tensor, every representation that can hold it
+        shape = [3, 4, 2]
+        init = gen_given(rng, shape, 2)
+        zero = {"rank": 2, "init": init, "dimorder": None, "optdims": None, "stoptol": 1e-4, "k": 2,
+                "fixsigns": True, "degenerate": "zero-data"}
+        zdense = {"kind": "dense", "shape": shape, "data": [0] * 24}
+        zsparse = {"kind": "sparse", "shape": shape, "subs": [], "vals": []}
+        ztucker = {"kind": "tucker", "shape": shape, "core": {"shape": [2, 2, 2], "data": [0] * 8},
+                   "factors": [gen.matrix(rng, s, 2, -3, 3) for s in shape]}
+        for zd in (zdense, zsparse, ztucker, {"kind": "sum", "shape": shape, "parts": [zdense, zsparse]}):
+            for pr in (0, 1):
+                out.append({**zero, "data": zd, "printitn": pr})
+        return out
+
+
 class Orders(Trace):
     """Every mode order x every non-empty subset of optimised modes for one tensor per data kind."""
     name = "orders_optdims"
@@ -1094,4 +1207,4 @@ class Formulas(Family):
 
 
 def families():
-    return [Formulas(), Options(), Orders(), Trace()]
+    return [Scale(), Formulas(), Options(), Orders(), Trace()]
